@@ -213,7 +213,15 @@ class PITConv1d(nn.Conv1d, PITModule):
             for inp in n.args:
                 inp = cast(fx.Node, inp)
                 if inp.op == 'call_module':
-                    if isinstance(mod.get_submodule(str(inp.target)), nn.ConstantPad1d):
+                    old_pad = mod.get_submodule(str(inp.target))
+                    if isinstance(old_pad, nn.ConstantPad1d):
+                        # the kept time-steps are the trailing ones: a non-causal pad keeps its
+                        # right part, only the left part shrinks (causal: (pad_amount, 0))
+                        right_pad = min(old_pad.padding[1], pad_amount)
+                        new_pad = nn.ConstantPad1d(
+                            padding=(pad_amount - right_pad, right_pad),
+                            value=old_pad.value
+                        )
                         mod.add_submodule(str(inp.target), new_pad)
                         break  # Found it, we can exit and go on
             else:  # Did not find anything
